@@ -3359,9 +3359,38 @@ def api(repo, out):
                     key='api-promotion-indices')
             continue
         # direction for inputs
-        # find the `if io == 'input'` assignments
-        okdir = None
-        for st in astx.walk_stmts(ap.node.body):
+        # (a) role variables chosen once by `io` (conditional expression / tuple selection): specialise the terms of
+        #     the two node arguments to io == 'input' and see which promoted name each is looked up with
+        def for_input(t):
+            def f(x):
+                if _k(x, 'ifexp') and _k(x[1], 'cmp') and x[1][1] in ('Eq', 'NotEq') and \
+                        ('param', 'io') in x[1][2:] and (('const', 'input') in x[1][2:] or ('const', 'output') in x[1][2:]):
+                    is_in = (('const', 'input') in x[1][2:]) == (x[1][1] == 'Eq')
+                    return x[2] if is_in else x[3]
+                if _k(x, 'unpack') and _k(x[3], 'tuple') and len(x[3]) == x[2] + 1 and isinstance(x[1], int):
+                    return x[3][1 + x[1]]
+                if _k(x, 'sub') and _k(x[1], 'tuple') and _k(x[2], 'const') and isinstance(x[2][1], int) and \
+                        0 <= x[2][1] < len(x[1]) - 1:
+                    return x[1][1 + x[2][1]]
+                return x
+            return subst(t, f)
+
+        def side(t):
+            ps = set()
+            contains(for_input(t), lambda x: ps.add(x[1]) if _k(x, 'param') else False)
+            par, chi = ps & {'prom_name', 'group'}, ps & {'sub_prom', 'subsys'}
+            if 'prom_name' in ps and not chi:
+                return 'parent'
+            if 'sub_prom' in ps and not par:
+                return 'child'
+            return 'mixed' if ({'prom_name', 'sub_prom'} & ps) and par and chi and \
+                not ({'prom_name', 'sub_prom'} <= ps) else None
+        okdir = (side(asym.term(b['src'], at)), side(asym.term(b['tgt'], at))) if b and 'src' in b and 'tgt' in b \
+            else None
+        if okdir is not None and None in okdir:
+            okdir = None
+        # (b) two mirrored branches `if io == 'input': ... else: ...`
+        for st in (astx.walk_stmts(ap.node.body) if okdir is None else ()):
             if isinstance(st, ast.If) and isinstance(st.test, ast.Compare) and isinstance(st.test.left, ast.Name) and \
                     st.test.left.id == 'io' and astx.const_str(st.test.comparators[0]) in ('input', 'output'):
                 is_in = (astx.const_str(st.test.comparators[0]) == 'input') == isinstance(st.test.ops[0], ast.Eq)
@@ -3382,6 +3411,10 @@ def api(repo, out):
         elif okdir == ('child', 'parent'):
             out.bad(ap, astx.stmt_of(c), 'input promotion edges point from the subsystem variable to the promoted name: '
                     'the src_indices chain is accumulated in the wrong direction', key='api-promotion-direction')
+        elif okdir is not None and None not in okdir:
+            out.bad(ap, astx.stmt_of(c), f'for inputs the promotion edge is added between the {okdir[0]} and the '
+                    f'{okdir[1]} look-up of (system path, promoted name); it must go from the node '
+                    '(group.pathname, prom_name) to the node (subsys.pathname, sub_prom)', key='api-promotion-direction')
         else:
             out.unsure(ap, astx.stmt_of(c), f'edge direction for inputs not recognised {okdir}')
 
@@ -3434,6 +3467,15 @@ _GX_ANCHOR = "    def _discrete_transfer(self, sub):\n"
 _GX_HELPER = ("    def _nl_discrete_transfer(self, vec_name, sub):\n"
               "        if self._conn_discrete_in2out and vec_name == 'nonlinear':\n"
               "            self._discrete_transfer(sub)\n\n")
+
+_AP_OLD = ("        if io == 'input':\n            src, _ = self.get_node_attrs(group.pathname, prom_name, io[0])\n"
+           "            tgt, tgt_attrs = self.get_node_attrs(subsys.pathname, sub_prom, io[0])\n        else:\n"
+           "            src, _ = self.get_node_attrs(subsys.pathname, sub_prom, io[0])\n"
+           "            tgt, tgt_attrs = self.get_node_attrs(group.pathname, prom_name, io[0])\n")
+_AP_ROLES = ("        upper = (group.pathname, prom_name)\n        lower = (subsys.pathname, sub_prom)\n"
+             "        src_key, tgt_key = (upper, lower) if io == 'input' else (lower, upper)\n        io_char = io[0]\n\n"
+             "        src = self.get_node_attrs(src_key[0], src_key[1], io_char)[0]\n"
+             "        tgt, tgt_attrs = self.get_node_attrs(tgt_key[0], tgt_key[1], io_char)\n")
 
 selftest(
     'C04',
@@ -3770,4 +3812,9 @@ selftest(
     Twin('twin-ei-info-per-name', GROUP, "            subsys._var_promotes['any'].extend((a, prominfo) for a in any)", "            subsys._var_promotes['any'].extend((a, copy.deepcopy(prominfo)) for a in any)",
          also=[(GROUP, "            subsys._var_promotes['input'].extend((i, prominfo) for i in inputs)", "            subsys._var_promotes['input'].extend((i, copy.deepcopy(prominfo)) for i in inputs)"),
                (CONN, "            src_indices = None if pinfo.src_indices is None else pinfo.src_indices.copy()\n", "            src_indices = pinfo.src_indices\n")]),
+    # ---- robustness round 3: role variables chosen once by `io`, one shared code path
+    Twin('twin-api-role-variables', CONN, _AP_OLD, _AP_ROLES),
+    Twin('twin-api-role-variables-output-test', CONN, _AP_OLD, _AP_ROLES.replace("(upper, lower) if io == 'input' else (lower, upper)", "(lower, upper) if io != 'input' else (upper, lower)")),
+    Mutant('api-role-variables-swapped', CONN, _AP_OLD, _AP_ROLES.replace("(upper, lower) if io == 'input' else (lower, upper)", "(lower, upper) if io == 'input' else (upper, lower)"), 'C04.api'),
+    Mutant('api-role-variables-wrong-element', CONN, _AP_OLD, _AP_ROLES.replace("self.get_node_attrs(tgt_key[0], tgt_key[1], io_char)", "self.get_node_attrs(tgt_key[0], src_key[1], io_char)"), 'C04.api'),
 )
